@@ -19,6 +19,7 @@ Streams (all through the implementation, the property oracles and the extracted 
   is_html     is_html / consume_quoted on tag-like texts (correspondence of the tag heuristic only), lower-case
               and mixed-case spellings
 """
+import re
 import itertools
 
 from common import enc_str
@@ -260,6 +261,19 @@ def gen_prefix_roundtrip(ctx, rt_cases):
     return out
 
 
+TAG_NAME_FINDING = 'roundtrip:tag-name-character-outside-letters-digits-dash-colon'
+
+
+def tag_has_extra_name_char(left):
+    """Does the last tag of the left context spell a tag / attribute name (outside quoted values) with one of the
+    characters HTML allows in names but is_html.is_ident() does not accept?"""
+    i = left.rfind('<')
+    if i < 0:
+        return False
+    seg = re.sub(r'"[^"]*"|\'[^\']*\'', '', left[i:])
+    return any(c in U.TAG_EXTRA_NAME_CHARS for c in seg)
+
+
 def rt_failure(ctx, rt, r):
     """Evaluate both oracles on a round-trip case; report; returns the key reported or None."""
     o = rt.opts
@@ -274,7 +288,10 @@ def rt_failure(ctx, rt, r):
         return None
     markup = U.full_opts(o)['type'] == 'markup'
     why = U.grammar_reject(rt.abbr, markup)
-    if why in U.FINDING_KEYS and U.valid_abbreviation(rt.abbr, markup):
+    if tag_has_extra_name_char(rt.left) and not (why in U.FINDING_KEYS):
+        # the complete tag to the left spells a name with `_`, `.`, `@` or `#`: listed limitation of the tag heuristic
+        key = TAG_NAME_FINDING
+    elif why in U.FINDING_KEYS and U.valid_abbreviation(rt.abbr, markup):
         # outside the grammar of extract_roundtrip: one of the listed limitations of the extractor
         key = U.FINDING_KEYS[why]
     else:
